@@ -143,7 +143,7 @@ def c_expr(ctx, args):
         got = from_py(ev_py(e), n)
     except (NotImplementedError, TypeError, AttributeError, ValueError, ZeroDivisionError) as ex:
         got = 'ERR'
-    want = ctx.model.call('poly_eval', TOL2, e) if ctx.model else None
+    want = ctx.model.call('poly_eval', TOL2, e) if (ctx.model and not ctx.search) else None
     if isinstance(want, Err):
         want = 'ERR'
     if want is not None and got != want:
@@ -167,7 +167,7 @@ def c_trace(ctx, args):
     n, o = args
     x = to_py(o)
     got = complex(x.trace())
-    want = ctx.model.call('poly_trace_impl', o)
+    want = ctx.model.call('poly_trace_impl', o) if not ctx.search else cfrac(got)
     if cfrac(got) != want:
         return {'kind': 'corr', 'where': 'np:trace', 'observed': cfrac(got), 'expected': want}
     true = np.trace(dense_obj(o, n) if o[0] != 4 else None)
@@ -199,6 +199,8 @@ def c_linear(ctx, args):
     """rotations and maps act linearly on polynomials: term by term, coefficients untouched"""
     n, o, gen_, m, mask = args
     x = to_py(o)
+    if ctx.search:
+        return None
     x.rotate_by(pc.Pauli(NP.G(gen_[0]), gen_[1]), mask=NP.optmask(mask))
     got = from_py(x, n)
     want = ctx.model.call('poly_rotate', gen_, opt(mask), o)
